@@ -130,6 +130,11 @@ pub fn serialize_witness(rln_witness: &RLNWitnessInput) -> Result<Vec<u8>> {
 pub fn deserialize_witness(serialized: &[u8]) -> Result<(RLNWitnessInput, usize)> {
     let mut all_read: usize = 0;
 
+    // The input must contain at least identity_secret, user_message_limit and message_id
+    if serialized.len() < 3 * fr_byte_size() {
+        return Err(Report::msg("serialized witness is too short"));
+    }
+
     let (identity_secret, read) = bytes_le_to_fr(&serialized[all_read..]);
     all_read += read;
 
@@ -147,6 +152,10 @@ pub fn deserialize_witness(serialized: &[u8]) -> Result<(RLNWitnessInput, usize)
     let (identity_path_index, read) = bytes_le_to_vec_u8(&serialized[all_read..])?;
     all_read += read;
 
+    // The input must still contain x and external_nullifier
+    if serialized.len() - all_read < 2 * fr_byte_size() {
+        return Err(Report::msg("serialized witness is too short"));
+    }
     let (x, read) = bytes_le_to_fr(&serialized[all_read..]);
     all_read += read;
 
@@ -181,6 +190,10 @@ pub fn proof_inputs_to_rln_witness(
 ) -> Result<(RLNWitnessInput, usize)> {
     let mut all_read: usize = 0;
 
+    // The input must contain at least the four field elements, the leaf index and the signal length
+    if serialized.len() < 4 * fr_byte_size() + 16 {
+        return Err(Report::msg("input data is too short"));
+    }
     let (identity_secret, read) = bytes_le_to_fr(&serialized[all_read..]);
     all_read += read;
 
@@ -203,9 +216,13 @@ pub fn proof_inputs_to_rln_witness(
     ))?;
     all_read += 8;
 
+    // The declared signal length must not exceed the bytes that follow it
+    if signal_len > serialized.len() - all_read {
+        return Err(Report::msg("signal length exceeds input data"));
+    }
     let signal: Vec<u8> = serialized[all_read..all_read + signal_len].to_vec();
 
-    let merkle_proof = tree.proof(id_index).expect("proof should exist");
+    let merkle_proof = tree.proof(id_index)?;
     let path_elements = merkle_proof.get_path_elements();
     let identity_path_index = merkle_proof.get_path_index();
 
